@@ -45,6 +45,8 @@ func init() {
 			{ID: "C16-R21", Title: "presence is not decided by nil", Floor: 1, Run: presenceIsNotDecidedByNil},
 			{ID: "C16-R22", Title: "immutable values are not written by their methods", Floor: 50, Run: immutableValuesAreNotWrittenByTheirMethods},
 			{ID: "C16-R23", Title: "script numbers are narrowed only under a range test (shared with C08-R15)", Floor: 10, Run: converterNarrowingIsRangeChecked},
+			{ID: "C16-R24", Title: "error objects that are returned are not dropped", Floor: 1, Run: errorObjectsAreNotDropped},
+			{ID: "C16-R25", Title: "failures noted in sort callbacks stick", Floor: 1, Run: failuresNotedInCallbacksStick},
 		},
 	})
 }
